@@ -66,10 +66,16 @@ def run(chk):
         sim_lines.append(f"skip {skip_word}"); meta.append(("setup",))
         nthreads = rng.pick([1, 2, 3, 8, 20]) if sc % 10 else rng.pick([60, 150, 199])
         threads = []
+        used_pt = set()
         lport = 20000 + rng.below(1000)
         for i in range(nthreads):
-            pid = AGENT_PID if rng.chance(1, 12) else rng.rand_range(2, 60000)
-            tid = pid + rng.below(4)
+            # a thread has at most one connect between the two hooks: no two attempts of a schedule share (pid, tid)
+            while True:
+                pid = AGENT_PID if rng.chance(1, 12) else rng.rand_range(2, 60000)
+                tid = pid + rng.below(4)
+                if ((pid << 32) | tid) not in used_pt:
+                    used_pt.add((pid << 32) | tid)
+                    break
             uid = rng.pick([0, 0, 1000, 1001, 33, 65534])
             gid = rng.pick([0, 0, 1000, 100, 27, 65534]) if rng.chance(3, 4) else uid
             ip, port, proto, prot = rng.pick(dests)
